@@ -23,14 +23,27 @@ var (
 	parenType = reflect.TypeOf(&ast.ParenExpr{})
 )
 
+// MaxBytes bounds a rendering. The parser shares sub-trees (`x--` stands for `x = x - 1` with ONE node
+// for both x), so a parsed "tree" can be a graph whose rendering as a tree is exponentially longer than
+// its source (`x` followed by n times `--` has 2^n leaves). A rendering that reaches the bound stops
+// there and ends in "<truncated>": the traversal order is fixed, so two renderings of equal trees are
+// still equal, and a difference within the first MaxBytes is still seen.
+const MaxBytes = 4 << 20
+
 // Dump renders a statement (or expression / operator) tree.
 func Dump(n interface{}, o Opts) string {
 	var b strings.Builder
 	dumpValue(&b, reflect.ValueOf(n), o, 0)
+	if b.Len() >= MaxBytes {
+		b.WriteString("<truncated>")
+	}
 	return b.String()
 }
 
 func dumpValue(b *strings.Builder, v reflect.Value, o Opts, depth int) {
+	if b.Len() >= MaxBytes {
+		return
+	}
 	if depth > 10000 {
 		b.WriteString("<too deep>")
 		return
